@@ -134,8 +134,13 @@ def random_object_spec(rng, cls=None, n=None, nfeat=None, degenerate=False):
             vals, lv = gen_quanti(rng, n, pnan)
             d = {'kind': kind, 'values': vals}
         elif kind == 'categ':
-            vals, lv, _ = gen_categ(rng, n, pnan, strings_only=(cls == 'CategoricalDiscretizer'))
+            vals, lv, cats = gen_categ(rng, n, pnan, strings_only=(cls == 'CategoricalDiscretizer'))
             d = {'kind': kind, 'values': vals}
+            if all(isinstance(c, str) for c in cats) and cls not in ('CategoricalDiscretizer', 'ChainedDiscretizer') and rng.random() < 0.15:
+                # the known categories listed in values_orders, in an order unrelated to the target
+                listed = list(cats)
+                rng.shuffle(listed)
+                d['listed'] = listed
         else:
             vals, lv, order = gen_ordinal(rng, n, pnan)
             d = {'kind': kind, 'values': vals, 'order': order}
@@ -201,6 +206,8 @@ def random_object_spec(rng, cls=None, n=None, nfeat=None, degenerate=False):
         spec['float_dtype'] = 'float32'
     if rng.random() < 0.3:
         spec['extra_column'] = True
+    if rng.random() < 0.25:
+        spec['int_dtype_columns'] = True      # (only has an effect on qualitative columns made of integers, without missing value)
     if cls in ('BinaryCarver', 'ContinuousCarver', 'MulticlassCarver') and rng.random() < 0.3:
         # a dev sample: a bootstrap of the training rows in which one modality may become rare
         idx = [rng.randrange(n) for _ in range(rng.randint(12, 40))]
@@ -278,7 +285,7 @@ def probe_frames(rng, o, X, spec, count=4):
         if rc in fr.columns:
             col = list(fr[rc])
             col[rng.randrange(n)] = np.nan
-            fr[rc] = pd.Series(col, dtype=X[rc].dtype)
+            fr[rc] = pd.Series(col, dtype=(object if str(X[rc].dtype).startswith('int') else X[rc].dtype))
     frames.append(('missing_injected', fr))
     # 4. empty and single-row frames
     frames.append(('empty', X.iloc[0:0].copy(deep=True)))
@@ -834,6 +841,8 @@ def hist_c03(seed, cls=None):
     if not h.fit(1, o, X, y, kw):
         return h
     X = h.last_X
+    if rng.random() < 0.4:
+        h.summary(1)            # an observer called between fit and transform changes nothing
     h.transform(1, X.copy(deep=True), seen=True, label='train')
     if h.objs[1].features:
         h.transform(1, sorted_probe_frame(rng, h.objs[1], X), seen=False, label='sweep')
